@@ -146,6 +146,19 @@ def handle (c : Case) : Verdict :=
           let gotP := (find probeL l.p l.c).map (·.toks) |>.getD []
           if gotP != wantP then some s!"{l.p}->{l.c}: consumer saw {gotP} but {wantP} was sent"
           else none
+    -- the producer stamps a sequence number (4th component) in production order BEFORE the End/batcher:
+    -- what is handed to a link must be a subsequence of the production order (the batcher may cut
+    -- batches anywhere, also by its timer, but never reorder)
+    let seqOf : Elem Val → Option Int
+      | .item (.tup [_, _, _, .int q, _]) | .ts (.tup [_, _, _, .int q, _]) _ => some q
+      | _ => none
+    let rec increasing : List Int → Bool
+      | a :: b :: r => a < b && increasing (b :: r)
+      | _ => true
+    let seqErr := sent.findSome? fun (l, p, _, batches) =>
+      let qs := (batches.flatten.filter (stampedBy p)).filterMap seqOf
+      if increasing qs then none
+      else some s!"{l.p}->{l.c}: elements were handed to the link out of production order (sequence numbers {qs})"
     let stray := (recvL ++ probeL).find? fun l => (find sentL l.p l.c).isNone
     -- join (spec side, from the implementation's `sent` lines): every consumer replica's sink saw
     -- exactly the equi-join of what was sent to it by the two blocks
@@ -173,7 +186,7 @@ def handle (c : Case) : Verdict :=
       if c.implOut.any (·.startsWith "panic") then some s!"engine run failed: {c.implOut}"
       else if sent.length ≠ sentL.length then some "unparsable sent line"
       else if misrouted.isSome then some s!"{misrouted.getD ""}: batch on the endpoint of another previous block"
-      else match pairErr.orElse (fun _ => joinErr) with
+      else match (pairErr.orElse (fun _ => joinErr)).orElse (fun _ => seqErr) with
         | some e => some e
         | none =>
           if strayJoined.isSome then some "joined output on a replica that was sent nothing" else
